@@ -314,6 +314,13 @@ theorem handed_positive {s : St} (h : Reach s) : ∀ i, 0 < s.handed i → 0 < s
   have := accounting h i
   omega
 
+/-- whatever gkvlite is entitled to look at has a positive count: an allocator that recycles an item
+    the moment its count reaches zero never takes it away from under a well-behaved reader -/
+theorem looked_at_is_counted {s : St} (h : Reach s) (i : Nat) (hl : mayLookAt s i) : 0 < s.count i := by
+  rcases hl with ⟨n, _, hc⟩ | hh
+  · exact reachable_positive h n i hc
+  · exact handed_positive h i hh
+
 /-- once every node has been freed (store and all snapshots closed) and the caller has returned
     everything it was handed, every reference gkvlite took has been released -/
 theorem closed_balanced {s : St} (h : Reach s) (hn : s.nodes = []) (hh : ∀ i, s.handed i = 0) :
@@ -370,6 +377,18 @@ example : (run St.init (demo ++ demoEnd)).map (fun s => ((s.nodes, s.count 7, s.
 example : (run St.init [.mkNode 0 7, .freeNode 0, .freeNode 0]).isNone = true := by decide
 example : (run St.init [.mkNode 0 7, .giveBack 7]).isNone = true := by decide
 example : (run St.init [.mkNode 0 7, .freeNode 0, .handOut 7]).isNone = true := by decide
+
+/-- defect F20 in the model: item 7 is loaded into node 0, shown to the visitor (no reference is
+    taken for that), the visit leaves the node and evicts it.  From then on nothing entitles
+    gkvlite to look at item 7, and its count is zero: the allocator may already have given it to
+    somebody else.  The pinned `VisitItemsAscendEx` compared the NEXT item's key with item 7's. -/
+example :
+    (run St.init [.mkNodeEmpty 0, .load 0 7, .evict 0]).map
+      (fun s => (decide (mayLookAt s 7), s.count 7)) = some (false, 0) := by decide
+/-- … whereas while the node still caches it, looking at it is fine -/
+example :
+    (run St.init [.mkNodeEmpty 0, .load 0 7]).map
+      (fun s => (decide (mayLookAt s 7), s.count 7)) = some (true, 1) := by decide
 
 /-- the state after `demo` is reachable, so all theorems above apply to it -/
 theorem demo_reach : ∀ s, run St.init demo = some s → Reach s :=
